@@ -1007,6 +1007,8 @@ sf_command	(SNDFILE *sndfile, int command, void *data, int datasize)
 					psf->error = SFE_BAD_COMMAND_PARAM ;
 				return 0 ;
 				} ;
+			if (datasize < 1)
+				return 0 ;
 			snprintf (data, datasize, "%s", sf_version_string ()) ;
 			return strlen (data) ;
 
@@ -1052,6 +1054,8 @@ sf_command	(SNDFILE *sndfile, int command, void *data, int datasize)
 	if (sndfile == NULL && command == SFC_GET_LOG_INFO)
 	{	if (data == NULL)
 			return (sf_errno = SFE_BAD_COMMAND_PARAM) ;
+		if (datasize < 1)
+			return 0 ;
 		snprintf (data, datasize, "%s", sf_parselog) ;
 		return strlen (data) ;
 		} ;
@@ -1147,6 +1151,8 @@ sf_command	(SNDFILE *sndfile, int command, void *data, int datasize)
 		case SFC_GET_LOG_INFO :
 			if (data == NULL)
 				return SFE_BAD_COMMAND_PARAM ;
+			if (datasize < 1)
+				return 0 ;
 			snprintf (data, datasize, "%s", psf->parselog.buf) ;
 			return strlen (data) ;
 
